@@ -21,6 +21,21 @@ package server
 // parked again. The self request of a phase therefore always runs first (the model allows any position; the op line
 // says `q<c>.<c>` right after the event that started the phase).
 
+// Monitor signatures (all evaluated on the real objects):
+//   symptom:cause   C12:{two-commit-majorities,two-commit-numbers,two-leaders-elected}:{restart-forgot-commit (D1),
+//                   failed-commit-cleared-latch (D3), doproposal-overwrote-number (D2), other};
+//                   C12:regressed-across-restart:{commit-not-persisted, proposal-not-persisted (D1), other};
+//                   C12:proposal-regressed:{doproposal-overwrote-number (D2), other};  C12:commit-regressed.
+//                   The cause is read off the execution: every member that acknowledged both commits must have been
+//                   restarted, had its latch cleared by its own failed DoCommit, or had its proposalId changed by its own
+//                   successful DoProposal BETWEEN its two acknowledgements (the latest such step names the cause); else other.
+//   handler contract (silent on the unchanged code): C12:acceptor-acked-commit-for-other-number (number ≠ proposalId held
+//                   or ≤ commitId held), C12:acceptor-acked-commit-for-other-host (latched on another host; suffix
+//                   :doproposal-overwrote-number when D2 moved the latched member's number since its last ack),
+//                   C12:acceptor-accepted-non-increasing-proposal, C12:acceptor-accepted-proposal-while-latched,
+//                   C12:acceptor-accepted-older-log — checked at every remote handler success and at DoSelfProposal /
+//                   DoSelfCommit (seen through their effect on the voter).
+
 import (
 	"fmt"
 	"math/rand"
